@@ -474,8 +474,7 @@ def _model_files(mf):
     return {k: (v.split(":")[0] if isinstance(v, str) and v.startswith("partial") else _collapse(v)) for k, v in mf.items()}
 
 
-def _corpus(ctx):
-    """corpus first: minimised past failures, replayed on the real code with real kills"""
+def _corpus_cases():
     from core.ctx import VERIF
     d = os.path.join(VERIF, "corpus", ID)
     cases = []
@@ -483,53 +482,110 @@ def _corpus(ctx):
         if fn.endswith(".json"):
             rec = json.load(open(os.path.join(d, fn)))
             cases += rec.get("cases", [rec] if "kills" in rec else [])
-    for c in cases:   # reference sessions first (one per distinct configuration), then the replays in parallel
-        key = json.dumps(c["cfg"], sort_keys=True)
-        if key not in _SESS:
+    return cases
+
+
+def _corpus_start():
+    """corpus first: minimised past failures.  One session process per distinct configuration replays them with simulated
+    kills (in a background thread, concurrently with the main sessions); a case that fails there is confirmed with real
+    process kills (oracle) before it is reported."""
+    import threading
+    cases = _corpus_cases()
+    groups = {}
+    for c in cases:
+        groups.setdefault(json.dumps(c["cfg"], sort_keys=True), []).append(c)
+    box = dict(cases=cases, out={}, err=None)
+
+    def work():
+        try:
+            for key, cs in groups.items():
+                o = _run_session("corpus" + hashlib.sha1(key.encode()).hexdigest()[:8], cs[0]["cfg"],
+                                 [dict(sid=i, kills=c["kills"]) for i, c in enumerate(cs)])
+                _SESS.setdefault(key, o)
+                box["out"][key] = o
+        except Infra as e:
+            box["err"] = str(e)
+    t = threading.Thread(target=work)
+    t.start()
+    box["thread"] = t
+    return box
+
+
+def _corpus_finish(ctx, box):
+    box["thread"].join()
+    if box["err"]:
+        ctx.notes.append(f"corpus replay skipped: {box['err']}")
+        return
+    groups = {}
+    for c in box["cases"]:
+        groups.setdefault(json.dumps(c["cfg"], sort_keys=True), []).append(c)
+    for key, cs in groups.items():
+        o = box["out"].get(key)
+        if o is None or o["ref"]["status"] != "done":
+            continue
+        for i, c in enumerate(cs):
+            ctx.case(dict(corpus=True, **c))
+            ctx.stat("corpus")
+            sc = o["scen"].get(str(i))
+            if sc is None:
+                continue
             try:
-                _SESS[key] = _run_session("c" + hashlib.sha1(key.encode()).hexdigest()[:8], c["cfg"], [])
+                j = _judge(c["cfg"], sc, o["ref"]["res"], o["ref"]["res"]["sha"])
             except Infra:
-                pass
-    for case, r in _pool().map(lambda c: (c, oracle(c)), cases):
-        ctx.case(dict(corpus=True, **case))
-        ctx.stat("corpus")
-        if r:
-            ctx.counterexample(case, *r)
+                continue
+            if j:
+                r = oracle(c)
+                if r:
+                    ctx.counterexample(c, *r)
+
+
+def _tick(ctx, name, t0):
+    import time
+    ctx.extra.setdefault("phase_s", {})[name] = round(ctx.extra.get("phase_s", {}).get(name, 0) + time.time() - t0, 1)
 
 
 def run(ctx):
-    _corpus(ctx)
+    import time
+    box = _corpus_start()
     for cfg in _configs(ctx):
         _run_cfg(ctx, cfg)
+    t0 = time.time()
+    _corpus_finish(ctx, box)
+    _tick(ctx, "corpus(wait)", t0)
 
 
 def _run_cfg(ctx, cfg):
+    import time
+    t0 = time.time()
     n, r0 = cfg["n"], cfg["r0"]
     protos = ("atomic", "inplace")
-    mo = ctx.model(DRIVER, [dict(op="ops", proto=p, n=n, resume=r0) for p in protos])
-    mo = dict(zip(protos, mo))
-    # kill points in model coordinates: ALL single kills (every op boundary, every byte position) + double kills
-    scen = {}
-    for p in protos:
-        nf = mo[p]["fine"]
-        ks = [[k] for k in range(nf + 1)]
-        rng = __import__("random").Random(ctx.rng.randrange(10 ** 9))
-        for _ in range(ctx.n(6, 24)):
-            ks.append([rng.randrange(1, nf), rng.randrange(0, 16)])
-        for _ in range(ctx.n(1, 6)):
-            ks.append([rng.randrange(1, nf), rng.randrange(0, 16), rng.randrange(0, 16)])
-        scen[p] = ks
-    sims = {p: ctx.model(DRIVER, [dict(op="sim", proto=p, n=n, r0=r0, kills=ks) for ks in scen[p]]) for p in protos}
-    nscen = max(len(scen[p]) for p in protos)
-    scenarios = []
-    for sid in range(nscen):
-        pos = {}
-        for p in protos:
-            if sid < len(scen[p]):
-                st = sims[p][sid]["stages"]
-                if all("pos" in x for x in st):
-                    pos[p] = [x["pos"] for x in st]
-        scenarios.append(dict(sid=sid, pos=pos))
+    # kill points in model coordinates: ALL single kills (every op boundary, every byte position) + double/triple kills;
+    # one model call for both protocols
+    rng = __import__("random").Random(ctx.rng.randrange(10 ** 9))
+    multi = [[rng.randrange(10 ** 6), rng.randrange(0, 16)] for _ in range(ctx.n(5, 12))]
+    multi += [[rng.randrange(10 ** 6), rng.randrange(0, 16), rng.randrange(0, 16)] for _ in range(ctx.n(1, 4))]
+    def sweep(which):
+        """model sweep for the protocols in `which` (the other one: op sequence only) -> mo, sims, scen, scenarios"""
+        req = [dict(op="sweep", proto=p, n=n, r0=r0, multi=multi) if p in which else dict(op="ops", proto=p, n=n, resume=r0)
+               for p in protos]
+        sw = dict(zip(protos, ctx.model(DRIVER, req)))
+        mo_ = {p: dict(coarse=sw[p]["coarse"], fine=sw[p]["fine"]) for p in protos}
+        sims_ = {p: sw[p]["singles"] + sw[p]["multi"] for p in which}
+        scen_ = {p: [x["kills"] for x in sims_[p]] for p in which}
+        scs = []
+        for sid in range(max(len(scen_[p]) for p in which)):
+            pos = {}
+            for p in which:
+                if sid < len(scen_[p]):
+                    st = sims_[p][sid]["stages"]
+                    if all("pos" in x for x in st):
+                        pos[p] = [x["pos"] for x in st]
+            scs.append(dict(sid=sid, pos=pos))
+        return mo_, sims_, scen_, scs
+    # the repaired protocol first; the model of the protocol as found is swept only if the code turns out to follow it
+    mo, sims, scen, scenarios = sweep(("atomic",))
+    _tick(ctx, "model", t0)
+    t0 = time.time()
     # split over a few session processes (each pays the JAX start-up once)
     nsess = ctx.n(2, 6)
     chunks = [scenarios[i::nsess] for i in range(nsess)]
@@ -539,6 +595,16 @@ def _run_cfg(ctx, cfg):
     except Infra as e:
         from core import leanrun
         raise leanrun.InfraError(str(e))
+    if outs[0]["proto"] == "inplace":
+        mo, sims, scen, scenarios = sweep(("inplace",))
+        chunks = [scenarios[i::nsess] for i in range(nsess)]
+        try:
+            outs = _pool().map(lambda a: _run_session(f"{cfg['seed']}_i{a[0]}", cfg, a[1], mc), list(enumerate(chunks)))
+        except Infra as e:
+            from core import leanrun
+            raise leanrun.InfraError(str(e))
+    _tick(ctx, "sessions", t0)
+    t0 = time.time()
     ref = outs[0]["ref"]
     _SESS[json.dumps(cfg, sort_keys=True)] = outs[0]
     proto = outs[0]["proto"]
@@ -561,7 +627,7 @@ def _run_cfg(ctx, cfg):
     if proto is None:
         # unknown protocol: no model to compare with; explore crash points directly in real coordinates
         kills = [[dict(at=k, when="before")] for k in range(len(ref["ops"]) + 1)]
-        kills += [[dict(at=k, when="partial", frac=[1, 2])] for k, ev in enumerate(ref["ops"]) if ev["op"] == "write"]
+        kills += [[dict(at=k, when="partial", frac=[1, 2])] for k, ev in enumerate(ref["ops"]) if ev["op"] == "flush"]
         o = _run_session(f"{cfg['seed']}_u", cfg, [dict(sid=i, kills=k) for i, k in enumerate(kills)], mc)
         for sc in o["scen"].values():
             ctx.case(dict(cfg=cfg, kills=sc["kills"]))
@@ -613,12 +679,13 @@ def _run_cfg(ctx, cfg):
     cand = [sid for sid, ks in enumerate(scen[proto]) if str(sid) in allsc and sid not in pick]
     ctx.rng.shuffle(cand)
     mid = [sid for sid in cand if any(k.get("when") == "partial" for k in allsc[str(sid)]["kills"])]
-    pick += mid[:ctx.n(1, 3)] + [sid for sid in cand if sid not in mid][:ctx.n(1, 3)]
+    pick += mid[:ctx.n(1, 2)] + [sid for sid in cand if sid not in mid][:ctx.n(0, 2)]
     try:
         reals = _pool().map(lambda sid: (sid, _scenario_real(f"{cfg['seed']}_{sid}", cfg, allsc[str(sid)]["kills"])), pick)
     except Infra as e:
         reals = []
         ctx.notes.append(f"real-kill cross-check skipped: {e}")
+    _tick(ctx, "compare+real-kills", t0)
     confirmed = set()
     for sid, rs in reals:
         sc = allsc[str(sid)]
@@ -661,7 +728,7 @@ def search(ctx):
         return
     _SESS[json.dumps(cfg, sort_keys=True)] = o
     for k, ev in enumerate(o["ref"]["ops"]):
-        if ev["op"] == "write" and ev["path"].startswith("last.pkl"):
+        if ev["op"] == "flush" and ev["path"].startswith("last.pkl"):
             for kill in (dict(at=k, when="before"), dict(at=k, when="partial", frac=[1, 2])):
                 case = dict(cfg=cfg, kills=[kill])
                 r = oracle(case)
